@@ -137,3 +137,39 @@ Proof.
   - apply wf_viewb_spec. vm_compute. reflexivity.
   - eexists. split; vm_compute; reflexivity.
 Qed.
+
+(* TIED TO THE SOURCE TEXT.  Generated/CsvSrc.v is written by tools/go2coq from
+   csv/csv.go (csvEscape, emitRow, RenderTo; a shallow translation over
+   Base/GoSem.v) and regenerated from the repository under test on every run
+   (check.py SOURCE_TIES).  For every byte string and every view - no hypothesis -
+   the translated source IS the model: csvEscape returns csv_escape s (its
+   2*len+2 buffer is never overrun, its loop never runs out of fuel); RenderTo
+   ends as csv_render_writes says, writes exactly that list in that order, and
+   checks every write. *)
+From Tab Require Import Base.GoSem Generated.CsvSrc Proofs.CsvSrcTie.
+
+Theorem c05_source_is_model :
+  (forall s, src_csvEscape s = Ok (csv_escape s))
+  /\ (forall n cells, src_emitRow (Z.of_nat n) cells = of_model (csv_emit_row n (row_texts cells)))
+  /\ (forall v, snd (src_RenderTo v) = Done (outcome_of (csv_render_writes v))
+                /\ (forall ws, csv_render_writes v = Ok ws -> src_RenderTo v = (checked ws, Done (Ok tt)))
+                /\ all_checked (fst (src_RenderTo v))).
+Proof. exact (conj src_csvEscape_is_model (conj src_emitRow_is_model src_RenderTo_is_model)). Qed.
+Print Assumptions c05_source_is_model.
+
+(* the round trip of c05_roundtrip, for what the TRANSLATED SOURCE writes: the
+   strict RFC 4180 parser reads back exactly the table from the concatenated
+   payloads, and every one of those writes is checked *)
+Theorem c05_source_roundtrip : forall v ws,
+  src_RenderTo v = (ws, Done (Ok tt)) ->
+  parse_csv (payloads ws) = Some (map (pad_to (v_ncols v)) (csv_records v))
+  /\ Forall (fun r => length r = v_ncols v) (map (pad_to (v_ncols v)) (csv_records v))
+  /\ all_checked ws.
+Proof. exact src_RenderTo_roundtrip. Qed.
+Print Assumptions c05_source_roundtrip.
+
+(* the translated source never panics and never exhausts a loop bound *)
+Theorem c05_source_total : forall v,
+  snd (src_RenderTo v) = Done (Ok tt) \/ snd (src_RenderTo v) = Done Err.
+Proof. exact src_RenderTo_no_panic_no_fuel. Qed.
+Print Assumptions c05_source_total.
